@@ -1,5 +1,6 @@
 import Toq.Core.ND
 import Toq.Core.Scalar
+import Toq.Core.Rank
 /-!
 # Mirror models of the helper operations of `toqito/matrix_ops/*.py` and of the helper-type functions
 of `toqito/matrix_props` (`majorizes.py`, `spark.py`, `commutant.py`)  (no Mathlib)
@@ -249,22 +250,10 @@ def rowSubMul (M : QMat) (i k : Nat) (t : QI) : QMat :=
 def findPivot (M : QMat) (rows lo c : Nat) : Option Nat :=
   ((List.range rows).filter (fun p => lo ≤ p)).find? (fun p => M.get p c != 0)
 
-/-- exact rank by Gaussian elimination with exact (non-zero) pivots -/
-def rank (rows cols : Nat) (M : QMat) : Nat := Id.run do
-  let mut M := M
-  let mut rk := 0
-  for c in [0:cols] do
-    if rk < rows then
-      match findPivot M rows rk c with
-      | none => pure ()
-      | some p =>
-        M := M.swapIfInBounds rk p
-        let inv := qinv (M.get rk c)
-        for i in [rk + 1:rows] do
-          let t := M.get i c * inv
-          if t != 0 then M := rowSubMul M i rk t
-        rk := rk + 1
-  return rk
+/-- exact rank of the `rows × cols` block of `M` by Gaussian elimination with exact (non-zero) pivots: the shared,
+    proved routine `Toq.Rank.rankFn` (`Toq/Core/Rank.lean`); equal to Mathlib's `Matrix.rank` of the denoted
+    complex matrix (`Toq.C16.rank_correct`) -/
+def rank (rows cols : Nat) (M : QMat) : Nat := Toq.Rank.rankFn rows cols M.get
 
 /-- all `k`-element subsets of `0..n-1` in the order of `itertools.combinations(range(n), k)` -/
 def combinations (n : Nat) : Nat → List (List Nat)
